@@ -372,7 +372,8 @@ static int vi_prefix(void)
 	int c = vi_read();
 	if ((c >= '1' && c <= '9')) {
 		while (isdigit(c)) {
-			n = n * 10 + c - '0';
+			if (n < 1000000)	/* avoid signed overflow */
+				n = n * 10 + c - '0';
 			c = vi_read();
 		}
 	}
